@@ -132,6 +132,10 @@ TRUSTED = [
     "(tied by streams 'lies', 'fit_targets', 'acquisition')",
     "CBO.tell/ask before search(): the harness calls CBO._setup_optimizer() as CBO._search does on its first call",
     "stream 'e2e_stat' is a statistical TEST with fixed seeds (not a theorem): later proposals concentrate at the maximiser",
+    "objective scale factors are powers of two (2^-50 .. 2^50): the rescaled history is exact and a scale-free pipeline returns bit-identical "
+    "scaled targets, so the metamorphic clause asks for the SAME proposal; two absolute thresholds of scikit-learn limit the scale-free range: "
+    "trees treat an impurity <= 2.2e-16 as pure (identity scaler + forest + tiny targets: known finding F70) and MinMaxScaler treats a data "
+    "range < 2.2e-15 as zero (such cases are not generated)",
     "one-shot batches (topk / boltzmann) are asked with filter_duplicated=True on a search that has not asked anything before, so the cached "
     "candidate list holds every configuration once; boltzmann only guarantees its FIRST element (argmax of -acquisition), the rest is sampled",
     "acquisition on real forests: zero-std candidates are compared with each other and with one positive-std candidate at a time (weak "
@@ -699,7 +703,7 @@ def scalariser_instance(kind, n_obj, w, par):
 def as_type(v, otype):
     import numpy as np
 
-    if otype == "int" and float(v).is_integer():
+    if otype == "int" and float(v).is_integer() and abs(v) < 2.0 ** 62:   # (a python int beyond int64 makes np.negative(obj) a plain int)
         return int(v)
     if otype == "np":
         return np.float64(v)
@@ -1091,6 +1095,9 @@ def gen_scalers(count):
             elif r < 0.2:    # a large offset with small dyadic variations (exact in binary64)
                 off = rng.choice([2.0 ** 30, -2.0 ** 40])
                 rows = [[off + v for v in row] for row in rows]
+            elif r < 0.45:   # the same sample rescaled by a tiny / huge positive factor (power of two: exact); minmax and quantile-uniform
+                c = 2.0 ** rng.choice([-50, -43, -40, -33, -30, -20, 20, 30, 40, 50])   # return the same values as for the unscaled sample
+                rows = [[v * c for v in row] for row in rows]
             yield dict(scaler=names[i % 4], base=[None, "RF", "ET", "GP"][(i // 4) % 4], rows=rows)
     return gen
 
@@ -1111,6 +1118,13 @@ def check_e2e(case):
     objs, nx, nz, kappa = case["objs"], case["nx"], case["nz"], case.get("kappa", 0.0)
     strategy, batch = case.get("strategy", "cl_max"), case.get("batch", 1)
     fails, ff, par, bounds = set(case.get("fails") or []), case.get("ff", "min"), case.get("par"), case.get("lower_bounds")
+    oscale = case.get("oscale")   # the objectives (and what is on their scale) multiplied by 2**oscale: exact, the pipeline is scale-free
+    base_objs, base_stds, base_bounds = objs, case.get("stds"), bounds
+    if oscale:
+        c = 2.0 ** oscale
+        objs = [[v * c for v in r] for r in objs]
+        bounds = None if bounds is None else [None if b is None else b * c for b in bounds]
+        case = dict(case, objs=objs, stds=None if base_stds is None else [sd * c for sd in base_stds], lower_bounds=bounds)
     zcat, otype, path = bool(case.get("zcat")), case.get("otype", "float"), case["path"]
     m = model()
     zval = (lambda j: ZCAT[j]) if zcat else (lambda j: j)
@@ -1132,70 +1146,84 @@ def check_e2e(case):
                     "tells=%d" % len(segs), "strategy=%s" % strategy, "batch=%d" % batch, "fails=%d" % min(len(fails), 3),
                     "asks-between-tells" if case.get("interleave") else "no-asks-between", "scalariser=" + ("object" if par is not None else "name"),
                     "bounds" if bounds else "no-bounds", "otype=" + otype, "z=" + ("cat" if zcat else "int") if nz > 1 else "z=-",
-                    "pattern=" + case.get("pattern", "-")],
+                    "pattern=" + case.get("pattern", "-"), "oscale=2^%d" % oscale if oscale else "oscale=1"],
                    nontrivial=len(set(map(tuple, objs))) > 1 and not best_first,
-                   scalarisation=kind if n_obj > 1 else "none", scaler=eff_scaler, utopia=utag, surrogate=surrogate, n_obj=n_obj)
+                   scalarisation=kind if n_obj > 1 else "none", scaler=eff_scaler, utopia=utag, surrogate=surrogate, n_obj=n_obj,
+                   objective_scale="one" if not oscale else ("tiny" if oscale < 0 else "huge"), path=path)
     if surrogate == "SPY":
         Spy = spy_class()
         sur, kw = Spy(), None
     else:
         sur, kw = surrogate, dict(FOREST_KW)
-    extra = {}
-    if bounds:
-        extra["moo_lower_bounds"] = bounds
-    kind_arg = scalariser_instance(kind, n_obj, w, par) if par is not None else kind
-
-    def outcome(i):
-        if i in fails:
-            return "F_fail"
-        o = [as_type(v, otype) for v in objs[i]]
-        return o[0] if n_obj == 1 else tuple(o)
-
-    with tempfile.TemporaryDirectory(prefix="vp_c05_") as d:
-        # batches ("topk", "boltzmann", "qUCB") rank a de-duplicated candidate list (nothing has been ASKED before, so the filter only
-        # removes repeated samples)
-        s = make_cbo(d, nx, sur, n_obj_kind=kind_arg, w=w, acq=case["acq"], kappa=kappa, scaler=scaler, n_points=512, seed=case["seed"],
-                     surrogate_kwargs=kw, n_z=nz, strategy=strategy, filter_duplicated=strategy not in CL, ff=ff, zcat=zcat, **extra)
-        if surrogate == "SPY":
-            Spy.stds = case.get("stds")
-        inter = case.get("interleave") or []
-        for bi, (a, b) in enumerate(segs):
-            # "tell": every batch through CBO.tell; "fit_surrogate*": the first batch is a checkpoint given to fit_surrogate, the rest is told
-            if path == "tell" or bi > 0:
-                s.tell([(dict(cfgs[i]), outcome(i)) for i in range(a, b)])
-            else:
-                cols = ["objective"] if n_obj == 1 else ["objective_%d" % j for j in range(n_obj)]
-                names = ["p:x", "p:z"] if nz > 1 else ["p:x"]
-                if path == "fit_surrogate_df":
-                    import pandas as pd
-
-                    data = {nm: [cfgs[i][nm[2:]] for i in range(a, b)] for nm in names}
-                    for j, cn in enumerate(cols):
-                        data[cn] = [float(objs[i][j]) for i in range(a, b)]
-                    data["job_id"] = list(range(b - a))
-                    s.fit_surrogate(pd.DataFrame(data))
-                else:
-                    csv = os.path.join(d, "prev.csv")
-                    with open(csv, "w") as f:
-                        f.write(",".join(names + cols + ["job_id"]) + "\n")
-                        for i in range(a, b):
-                            cells = ["F_fail"] * n_obj if i in fails else [repr(float(v)) for v in objs[i]]
-                            f.write(",".join([str(cfgs[i][k[2:]]) for k in names] + cells + [str(i)]) + "\n")
-                    s.fit_surrogate(csv)
-            if bi < len(segs) - 1 and bi < len(inter) and inter[bi]:
-                s.ask(inter[bi])   # proposals (and, for n > 1, constant-liar lies) between two tells: must leave no trace in the history
-        # constant-liar names: the FIRST element of a batch is the exploitation-only proposal (the others follow the lies)
-        asked = s.ask(batch)
-        if strategy in CL:
-            asked = asked[:1]
-        again = s.ask(1) if case.get("twice") and strategy in CL else None
     def to_idx(nxt):
         key = {k: (v if isinstance(v, str) else int(v)) for k, v in nxt.items()}
         return cfgs.index(key) if key in cfgs else None
 
+    def run_impl(objs, stds, bounds):
+      """tells the history (objs), returns (asked, again) as index lists"""
+      extra = {}
+      if bounds:
+          extra["moo_lower_bounds"] = bounds
+      kind_arg = scalariser_instance(kind, n_obj, w, par) if par is not None else kind
+
+      def outcome(i):
+          if i in fails:
+              return "F_fail"
+          o = [as_type(v, otype) for v in objs[i]]
+          return o[0] if n_obj == 1 else tuple(o)
+
+      with tempfile.TemporaryDirectory(prefix="vp_c05_") as d:
+          # batches ("topk", "boltzmann", "qUCB") rank a de-duplicated candidate list (nothing has been ASKED before, so the filter only
+          # removes repeated samples)
+          s = make_cbo(d, nx, sur, n_obj_kind=kind_arg, w=w, acq=case["acq"], kappa=kappa, scaler=scaler, n_points=512, seed=case["seed"],
+                       surrogate_kwargs=kw, n_z=nz, strategy=strategy, filter_duplicated=strategy not in CL, ff=ff, zcat=zcat, **extra)
+          if surrogate == "SPY":
+              Spy.stds = stds
+          inter = case.get("interleave") or []
+          for bi, (a, b) in enumerate(segs):
+              # "tell": every batch through CBO.tell; "fit_surrogate*": the first batch is a checkpoint given to fit_surrogate, the rest is told
+              if path == "tell" or bi > 0:
+                  s.tell([(dict(cfgs[i]), outcome(i)) for i in range(a, b)])
+              else:
+                  cols = ["objective"] if n_obj == 1 else ["objective_%d" % j for j in range(n_obj)]
+                  names = ["p:x", "p:z"] if nz > 1 else ["p:x"]
+                  if path == "fit_surrogate_df":
+                      import pandas as pd
+
+                      data = {nm: [cfgs[i][nm[2:]] for i in range(a, b)] for nm in names}
+                      for j, cn in enumerate(cols):
+                          data[cn] = [float(objs[i][j]) for i in range(a, b)]
+                      data["job_id"] = list(range(b - a))
+                      s.fit_surrogate(pd.DataFrame(data))
+                  else:
+                      csv = os.path.join(d, "prev.csv")
+                      with open(csv, "w") as f:
+                          f.write(",".join(names + cols + ["job_id"]) + "\n")
+                          for i in range(a, b):
+                              cells = ["F_fail"] * n_obj if i in fails else [repr(float(v)) for v in objs[i]]
+                              f.write(",".join([str(cfgs[i][k[2:]]) for k in names] + cells + [str(i)]) + "\n")
+                      s.fit_surrogate(csv)
+              if bi < len(segs) - 1 and bi < len(inter) and inter[bi]:
+                  s.ask(inter[bi])   # proposals (and, for n > 1, constant-liar lies) between two tells: must leave no trace in the history
+          # constant-liar names: the FIRST element of a batch is the exploitation-only proposal (the others follow the lies)
+          asked = s.ask(batch)
+          if strategy in CL:
+              asked = asked[:1]
+          again = s.ask(1) if case.get("twice") and strategy in CL else None
+      return asked, again
+
+    asked, again = run_impl(objs, case.get("stds"), bounds)
     idxs = [to_idx(nxt) for nxt in asked]
     if any(i is None for i in idxs):
         return fail(res, "oracle", "proposal_outside_space", dict(proposal=repr(asked)))
+    if oscale:
+        # metamorphic: the same history with the objectives on their original scale (same seeds) gives the same proposal(s)
+        asked1, _ = run_impl(base_objs, base_stds, base_bounds)
+        idxs1 = [to_idx(nxt) for nxt in asked1]
+        same = sorted(idxs1) == sorted(idxs) if strategy in ("topk", "qUCB", "qUCBd") else (idxs1[:1] == idxs[:1] if strategy == "boltzmann" else idxs1 == idxs)
+        if not same:
+            return fail(res, "oracle", "proposal_changes_with_objective_scale",
+                        dict(scale="2**%d" % oscale, proposal_scaled=idxs, proposal_unscaled=idxs1, objectives=base_objs))
     if again is not None:
         idxs2 = [to_idx(nxt) for nxt in again]
         if idxs2 != idxs[:1]:
@@ -1288,6 +1316,9 @@ def gen_e2e(count):
         # F07 end to end: all-positive objectives, identity scaler, Chebyshev
         yield dict(n_obj=2, kind="Chebyshev", scaler="identity", w=[0.5, 0.5], surrogate="ET", acq="UCB", path="tell", nx=4, nz=1,
                    objs=[[100.0, 100.0], [101.0, 103.0], [107.0, 106.0], [104.0, 105.0]], seed=3)
+        # objectives of the order 1e-12 with the default scaler of the forests (quantile-uniform): still the largest one (x = 5)
+        yield dict(n_obj=1, kind="Linear", scaler="auto", w=[1.0], surrogate="ET", acq="UCBd", path="tell", nx=8, nz=1,
+                   objs=[[3.0], [1.0], [7.0], [5.0], [2.0], [8.0], [4.0], [6.0]], seed=5, cuts=[4], strategy="cl_max", batch=1, oscale=-40)
         # one-shot batch: the two largest objectives (x = 2, 3)
         yield dict(n_obj=1, kind="Linear", scaler="identity", w=[1.0], surrogate="RF", acq="UCB", path="tell", nx=4, nz=1,
                    objs=[[3.0], [1.0], [7.0], [5.0]], seed=2, strategy="topk", batch=2)
@@ -1381,6 +1412,16 @@ def gen_e2e(count):
             if n_obj > 1 and rng.random() < 0.1:
                 ref = rng.choice(case["objs"])
                 case["lower_bounds"] = [ref[j] if rng.random() < 0.6 else None for j in range(n_obj)]
+            # ---- the same problem with the objectives rescaled by a tiny / huge positive factor (a power of two: exact)
+            if rng.random() < 0.25:
+                case["oscale"] = rng.choice([-50, -43, -40, -33, -30, -20, 20, 30, 40, 50])
+                if case["scaler"] == "minmax" and case["oscale"] < 0:
+                    # sklearn's MinMaxScaler treats a data range below 10*eps = 2.2e-15 as zero (an ABSOLUTE threshold of the library):
+                    # keep every non-constant objective column's range well above it
+                    cols = [[r[j] for r in case["objs"]] for j in range(n_obj)]
+                    spreads = [max(c_) - min(c_) for c_ in cols if max(c_) > min(c_)]
+                    if spreads and min(spreads) * 2.0 ** case["oscale"] < 1e-12:
+                        del case["oscale"]
             # ---- python / numpy number types, categorical hyperparameter, DataFrame checkpoint
             case["otype"] = rng.choice(["float", "float", "int", "np"])
             if nz > 1 and rng.random() < 0.3:
@@ -1395,6 +1436,8 @@ def shrink_e2e(case):
     objs, nx, nz = case["objs"], case["nx"], case["nz"]
     if case.get("batch", 1) > 1:
         yield dict(case, batch=case["batch"] - 1)
+    if case.get("oscale"):
+        yield dict(case, oscale=None)
     cuts = case.get("cuts") or []
     for i in range(len(cuts)):
         yield dict(case, cuts=cuts[:i] + cuts[i + 1:], interleave=None)
@@ -1441,11 +1484,11 @@ def check_e2e_stat(case):
     kw = dict(n_estimators=25) if case["surrogate"] in ("ET", "RF") else None
     n_init = 8
     res = base_res(["surrogate=" + case["surrogate"], "n_obj=%d" % n_obj, "kind=" + (case["kind"] if n_obj > 1 else "-"), "scaler=" + case["scaler"],
-                    "dim=%d" % dim, "offset=%g" % off, "search-calls=%d" % (2 if case.get("two_calls") else 1), "acq=%s" % (case.get("acq") or "default")], scalarisation=case["kind"] if n_obj > 1 else "none",
+                    "dim=%d" % dim, "offset=%g" % off, "scale=%g" % scale, "search-calls=%d" % (2 if case.get("two_calls") else 1), "acq=%s" % (case.get("acq") or "default")], scalarisation=case["kind"] if n_obj > 1 else "none",
                    scaler=case["scaler"] if case["scaler"] != "auto" else ("quantile-uniform" if case["surrogate"] in ("ET", "RF") else "identity"),
                    utopia="n/a" if n_obj == 1 else ("zero" if case["scaler"] in ("minmax", "quantile-uniform") or
                                                     (case["scaler"] == "auto" and case["surrogate"] in ("ET", "RF")) else "nonzero"),
-                   surrogate=case["surrogate"], n_obj=n_obj)
+                   surrogate=case["surrogate"], n_obj=n_obj, objective_scale="tiny" if scale < 1e-6 else ("huge" if scale > 1e6 else "one"))
     means, bottoms, laters = [], [], []
     for seed in case["seeds"]:
         with tempfile.TemporaryDirectory(prefix="vp_c05_") as d:
@@ -1488,8 +1531,10 @@ def gen_e2e_stat(count):
         for i, (sur, scaler, kind, n_obj) in enumerate(combos[:count]):
             # Quadratic converges slowly on the 2-D problem (mean position 0.55-0.75 after 28 proposals): 1-D only, to keep the threshold far
             dim = 1 if kind == "Quadratic" and n_obj > 1 else rng.choice([1, 2])
-            yield dict(surrogate=sur, n_obj=n_obj, kind=kind, scaler=scaler, dim=dim, offset=rng.choice([0.0, 100.0, -100.0, -0.5]),
-                       scale=rng.choice([1.0, 10.0, 0.125]), w=None if i % 3 else [1.0 / n_obj] * n_obj,
+            scale = rng.choice([1.0, 10.0, 0.125, 2.0 ** -40, 2.0 ** -43, 2.0 ** 40])
+            yield dict(surrogate=sur, n_obj=n_obj, kind=kind, scaler=scaler, dim=dim,
+                       offset=rng.choice([0.0, 100.0, -100.0, -0.5]) * (scale if scale < 1e-6 or scale > 1e6 else 1.0),
+                       scale=scale, w=None if i % 3 else [1.0 / n_obj] * n_obj,
                        seeds=[rng.randint(0, 10 ** 6) for _ in range(3)], max_evals=36 if sur != "GP" else 28, two_calls=i % 2 == 1)
         # the hedging acquisition of the GP (EI / LCB / PI chosen by their gains) and plain EI / PI, single objective
         for acq in ("gp_hedge", "EI", "PI"):
